@@ -280,7 +280,8 @@ def oracle_C13(ctx, cases, answers):
     for i, (c, a) in enumerate(zip(cases, answers)):
         g = c.get("group13")
         if g is not None:
-            groups.setdefault(g, []).append((i, c.get("shape"), a))
+            # `pe` (equal to the value parsed from its own string?) exists only for type parameters that have a parser
+            groups.setdefault(g, []).append((i, c.get("shape"), re.sub(r" pe=\w+", "", a)))
     for g, items in groups.items():
         base = items[0]
         for it in items[1:]:
@@ -438,6 +439,15 @@ class RefBuilder:
             self.ver = u(1)
         elif n == "psub":
             self.sub = u(1)
+        elif n == "rb":
+            exp = self.expected()
+            if exp[0] == "err":
+                self.aborted = exp[1] if self.shape != "P" or exp[1].startswith("Pkg.") else "Pkg.Parse." + exp[1]
+            else:
+                f = exp[1]
+                self.name, self.q = f["name"], dict(f["q"])
+                if self.shape != "P":
+                    self.ty = f["ty"]
         elif n == "pq":
             # a direct edit of `parts.qualifiers` through the collection's own API: the reference map does the same
             rq = RefQuals(self.uni)
@@ -807,6 +817,8 @@ class RefQuals:
             return "."
         if n == "len":
             return "%d%s" % (len(self.m), "e" if not self.m else "")
+        if n == "eqf":
+            return "eqf:T"
         if n == "iter":
             return show_pairs(self.items())
         if n == "riter":
@@ -1265,6 +1277,11 @@ def oracle_C19(ctx, cases, answers):
             if (ab == "lt" and bc in ("lt", "eq") or ab in ("lt", "eq") and bc == "lt") and ac != "lt":
                 v.append((i, "ordering not transitive (%s)" % a))
             continue
+        if c["req"].startswith("build "):
+            m_ = re.search(r" pe=(\w+)", a)
+            if m_ and m_.group(1) == "F":
+                v.append((i, "the built PURL and the PURL parsed from its canonical string have the SAME string but are not equal (==, hash, cmp): %s" % a[:160]))
+            continue
         if not c["req"].startswith("cmp "):
             continue
         if a in ("NOVALUE", "NA", "PANIC"):
@@ -1361,6 +1378,16 @@ def oracle_C16(ctx, cases, answers):
                     v.append((i, "deserialising the %s value %r gives %s, parsing the same string gives %s" % (c["kind"], c["s"][:80], a[:100], rp[:100])))
             elif rp.startswith("ERR:") and not a.startswith("ERR:serde"):
                 v.append((i, "parsing %r fails but deserialising it as a %s value gives %s" % (c["s"][:80], c["kind"], a[:100])))
+        elif st == "dip":
+            ref = answers[c["reference"]]
+            rp = fields(ref).get("p", ref)
+            if a in ("NOPLACE",):
+                continue
+            if rp.startswith("OK:"):
+                if a != rp:
+                    v.append((i, "deserialising %r in place over %r gives %s, parsing the string gives %s" % (c["s"][:80], c["old"][:60], a[:110], rp[:110])))
+            elif rp.startswith("ERR:") and not a.startswith("ERR:serde"):
+                v.append((i, "parsing %r fails but deserialising it in place over %r gives %s" % (c["s"][:80], c["old"][:60], a[:110])))
         elif st == "dev-other":
             if not a.startswith("ERR:serde"):
                 v.append((i, "a %s value (payload %r) is not a string value but is not refused: %s" % (c["kind"], c["s"][:60], a[:100])))
